@@ -89,6 +89,7 @@ def _colorings_concrete(P):
     out['fwd'] = CM._compute_coloring(J, 'fwd')
     out['rev'] = CM._compute_coloring(J, 'rev')
     out['auto'] = CM._compute_coloring(J, 'auto')
+    out['auto_subst'] = CM._compute_coloring(J, 'auto', direct=False)
     from scipy.sparse import coo_matrix
     r, c = np.nonzero(J)
     for direct in (True, False):
@@ -151,7 +152,12 @@ def h_kernel(ctx, patterns):
                 ctx.check(f'[{tag}]rev:each_nonempty_row_in_exactly_one_color', flat == [r for r in range(m) if Pb[r, :].any()], groups=repr(groups))
                 ctx.check(f'[{tag}]rev:no_more_solves_than_rows', nr <= m)
             else:
-                ctx.check(f'[{tag}]{kind}:solves<=max_dimension', nf + nr <= max(m, n) if kind != 'auto' else nf + nr <= min(m, n))
+                # 'auto' (what users get: _compute_coloring compares the bidirectional result with both one-directional ones and
+                # keeps the cheapest) never needs more solves than the cheaper uncolored direction.  The raw MNCO_bidir results
+                # (bidir_direct / bidir_subst) are internal intermediates of that comparison and may need more (e.g. 5 solves for
+                # 110/011/001/110): only their reconstruction is an obligation.
+                if kind.startswith('auto'):
+                    ctx.check(f'[{tag}]{kind}:solves<=min_dimension', nf + nr <= min(m, n), solves=nf + nr)
                 for direction, cnt in (('fwd', n), ('rev', m)):
                     part = col._fwd if direction == 'fwd' else col._rev
                     if part is not None:
